@@ -694,18 +694,20 @@ theorem C18_estimator_endpoint_padded_counterexample :
 
 /-! ### the route `analyze_accumulator_from_sample` (stated range derived from a sample) -/
 
-/-- with two or more quantized layers the derived range covers every element of every sample -/
-theorem C18_from_sample_range_covers (samples : List (List ℚ)) (s : List ℚ) (hs : s ∈ samples)
-    (x : ℚ) (hx : x ∈ s) :
-    (fromSampleRange false samples).1 ≤ x ∧ x ≤ (fromSampleRange false samples).2 := by
+/-- the derived range covers every element of every sample, whatever the number of quantized
+    layers (since fix round R also for a single one) -/
+theorem C18_from_sample_range_covers (single : Bool) (samples : List (List ℚ)) (s : List ℚ)
+    (hs : s ∈ samples) (x : ℚ) (hx : x ∈ s) :
+    (fromSampleRange single samples).1 ≤ x ∧ x ≤ (fromSampleRange single samples).2 := by
   have hmem : x ∈ samples.flatten := List.mem_flatten.2 ⟨s, hs, hx⟩
   exact ⟨listMin_le hmem, le_listMax hmem⟩
 
-/-- PARTIAL (two or more quantized layers): whenever the function returns `e`, every output
-    channel is bounded by `2^e` on every patch made of sample elements and padded zeros — in
-    particular on the sample itself, whatever the padding -/
-theorem C18_from_sample_partial (samples : List (List ℚ)) (slices : List (List ℚ))
-    (bias : List ℚ) (e : ℤ) (h : analyzeFromSample false samples slices bias = .ok e)
+/-- FULL (any number of quantized layers; the hypothesis "two or more" of the former
+    `C18_from_sample_partial` is gone since fix round R): whenever the function returns `e`, every
+    output channel is bounded by `2^e` on every patch made of sample elements and padded zeros —
+    in particular on every sample of the batch itself, whatever the padding -/
+theorem C18_from_sample (single : Bool) (samples : List (List ℚ)) (slices : List (List ℚ))
+    (bias : List ℚ) (e : ℤ) (h : analyzeFromSample single samples slices bias = .ok e)
     (i : ℕ) (hi : i < slices.length) (xs : List ℚ)
     (hx : ∀ x ∈ xs, x ∈ samples.flatten ∨ x = 0) :
     ∃ b, bias[i]? = some b ∧ |dot slices[i] xs + b| ≤ pow2 e := by
@@ -715,19 +717,26 @@ theorem C18_from_sample_partial (samples : List (List ℚ)) (slices : List (List
   · exact Or.inl ⟨listMin_le hmem, le_listMax hmem⟩
   · exact Or.inr h0
 
-/-- COUNTEREXAMPLE (finding C18-from-sample-single-layer): one quantized layer with the single
-    weight 1, sample batch `[[1/4], [1]]`.  The derived range is that of the FIRST sample,
-    `[1/4, 1/4]`; the size is `ceil(log2 1/4) = −2`; the second sample of the very batch the range
-    was taken from gives the output 1 > 2^−2.  The same model counted as one of several quantized
-    layers gets the range `[1/4, 1]` and the size 0. -/
-theorem C18_from_sample_single_layer_counterexample :
-    fromSampleRange true [[1/4], [1]] = (1/4, 1/4) ∧
-    analyzeFromSample true [[1/4], [1]] [[1]] [0] = .ok (-2) ∧
+/-- the number of quantized layers in the model does not enter the size of a layer -/
+theorem C18_from_sample_single_irrelevant (samples : List (List ℚ)) (slices : List (List ℚ))
+    (bias : List ℚ) :
+    analyzeFromSample true samples slices bias = analyzeFromSample false samples slices bias := rfl
+
+/-- REGRESSION WITNESS (repaired finding C18-from-sample-single-layer): one quantized layer with
+    the single weight 1, sample batch `[[1/4], [1]]`.  Before the repair the derived range was that
+    of the FIRST sample, `[1/4, 1/4]`, the size `ceil(log2 1/4) = −2`, and the second sample of the
+    very batch gave the output 1 > 2^−2.  Now the range is `[1/4, 1]`, the size 0, and both samples
+    fit — exactly as for the same layer beside a second quantized layer. -/
+theorem C18_from_sample_single_layer_fixed_witness :
+    fromSampleRange true [[1/4], [1]] = (1/4, 1) ∧
+    analyzeFromSample true [[1/4], [1]] [[1]] [0] = .ok 0 ∧
+    |dot [1] [1] + 0| ≤ pow2 0 ∧ |dot [1] [1/4] + 0| ≤ pow2 0 ∧
     ¬ (|dot [1] [1] + 0| ≤ pow2 (-2)) ∧
-    fromSampleRange false [[1/4], [1]] = (1/4, 1) ∧
     analyzeFromSample false [[1/4], [1]] [[1]] [0] = .ok 0 := by
-  refine ⟨by decide +kernel, by decide +kernel, ?_, by decide +kernel, by decide +kernel⟩
-  simp [dot, pow2]; norm_num
+  refine ⟨by decide +kernel, by decide +kernel, ?_, ?_, ?_, by decide +kernel⟩
+  · simp [dot, pow2]
+  · simp [dot, pow2]; norm_num
+  · simp [dot, pow2]; norm_num
 
 /-! ## alias class names (strengthening round, seed C18-5)
 
